@@ -81,6 +81,8 @@ pub fn build_local_search_solver(
          start_time: Option<Instant>,
          _: Option<stdtime::Duration>,
          _: Option<u32>| {
+            #[cfg(feature = "verif")]
+            solution::verif::record("ls_step", current_solution.solution().get_schedule());
             println!(
                 "Iteration {} - Swap: {}",
                 iteration_counter,
